@@ -24,6 +24,7 @@ func init() {
 			"G5 name spaces: nothing reachable from RenameOutput rewrites the id of a binding taken from CallStm.Bindings (an input name), " +
 			"G6 edits created while a callable is renamed do not find their target through the live id of a compiled pipeline they point to (a later rename of that pipeline in the same request would make the replay miss it). " +
 			"G7 the rename walkers visit every binding of every binding list: no sub-slice of BindStms.List and no early exit from a loop over it that does work per element (the wildcard binding is an ordinary entry and may hold the reference). " +
+			"G8 renames consider a binding supplied through a wildcard (one known finding), G9 the unused-output search visits every called pipeline, G10 declaration objects of separately compiled files are never compared for identity. " +
 			"NOT decided: that the edited program compiles, call-graph equality, round-trip of renames.",
 		Assumptions: commonAssumptions,
 	}
@@ -309,6 +310,7 @@ func runC19(c *an.Ctx) {
 	ruleG7(c, sp, mechOf)
 	ruleG8(c, sp)
 	ruleG9(c, sp)
+	ruleG10(c, sp)
 
 	// ---------------- G2 ----------------
 	walkers := []struct {
